@@ -18,7 +18,7 @@ ASSUMPTIONS = ['data excludes the acknowledgement\'s own delimiters ~ * : ^ (tha
                'multi-interchange inputs share sender/receiver (which interchange a single 997 should address is not defined by the property)',
                'AK902 is compared only when GE01 is a canonical number; itemisation is checked tree => acknowledgement, not the converse',
                'a logged ERROR record counts as "reported"']
-REQUIRED_COUNTERS = ['reader-findings-checked', 'docs:A', 'docs:B', 'docs:with-errors', 'docs:valid', 'ak2-checked', 'ak3-checked', 'ak4-checked', 'ak9-checked', 'acks:997', 'acks:999']
+REQUIRED_COUNTERS = ['envelope-discrepancies-checked', 'reader-findings-checked', 'docs:A', 'docs:B', 'docs:with-errors', 'docs:valid', 'ak2-checked', 'ak3-checked', 'ak4-checked', 'ak9-checked', 'acks:997', 'acks:999']
 MIN_CASES = {'quick': 700, 'thorough': 20000}
 WATCHDOG_S = {'quick': 1200, 'thorough': 7200}
 
@@ -247,6 +247,46 @@ def check_reader_attribution(ctx, text, res, case):
             in_set = False
 
 
+def check_envelope_attribution(ctx, text, res, case):
+    """(5) every envelope discrepancy the independent recount finds (duplicate control number, trailer id/count mismatch) is in the tree
+    on the interchange / group / set it belongs to, and that set is not acknowledged as accepted"""
+    from vlib import ref_envelope as RE
+    terms, pieces = ref_token.tokenize(text)
+    segs = []
+    owner = []
+    ii = gi = si = -1
+    for p in pieces:
+        if p.blank_only:
+            continue
+        if p.sid == 'ISA':
+            ii += 1
+            gi = si = -1
+        elif p.sid == 'GS':
+            gi += 1
+            si = -1
+        elif p.sid == 'ST':
+            si += 1
+        segs.append((p.sid, [(c[0] if len(c) == 1 else terms[2].join(c)) for c in p.elements]))
+        owner.append((ii, gi, si))
+    rc = RE.recount(segs, check_lx=False)
+    if not rc.proper:
+        return
+    errs = res.errors or []
+    a = ref_ack.Ack(res.ack) if res.ack else None
+    for (idx, level, code) in rc.must:
+        if idx == 'eof' or level == 'seg':
+            continue
+        ctx.count('envelope-discrepancies-checked')
+        o = owner[idx]
+        want = {'isa': (o[0], None, None), 'gs': (o[0], o[1], None), 'st': o}[level]
+        hit = [e for e in errs if e[0] == level and e[9] == code and (e[1], e[2], e[3]) == want]
+        if not hit:
+            elsewhere = [e for e in errs if e[0] == level and e[9] == code]
+            ctx.viol('envelope-attribution:%s/%s:%s' % (level, code, 'booked-on-another-loop' if elsewhere else 'missing-from-tree'),
+                     'an envelope discrepancy found by the independent recount is not in the tree on the loop it belongs to', case,
+                     {'segment_index': idx, 'segment': segs[idx], 'belongs_to': want, 'same_code_elsewhere': [e[:12] for e in elsewhere[:3]]})
+
+
 def check_verdict(ctx, res, case):
     reported_tree = bool(res.errors)
     logged = res.error_logs()
@@ -272,6 +312,7 @@ def judge(ctx, text, case, full, sigs, mapname='?'):
     if full:
         check_ack(ctx, text, res, case)
         check_reader_attribution(ctx, text, res, case)
+        check_envelope_attribution(ctx, text, res, case)
     if res.errors:
         codes = sorted('%s%s' % (e[0][0], e[9]) for e in res.errors)
         shape = [(len(i['groups']), [len(x['sets']) for x in i['groups']]) for i in input_structure(text)] if text[:3] == 'ISA' else None
@@ -280,6 +321,22 @@ def judge(ctx, text, case, full, sigs, mapname='?'):
 
 def perturb_envelope(rng, doc):
     d = faults.clone(doc)
+    # re-used control numbers (within their scope)
+    last = {}
+    for r in d.recs:
+        k = {'ST': 1, 'GS': 5, 'ISA': 12}.get(r.node.id)
+        if k is None:
+            continue
+        if r.node.id in last and rng.random() < 0.3:
+            old = r.vals[k]
+            r.vals[k] = last[r.node.id]
+            # keep the trailer consistent with its (now duplicate) header
+            depth = 0
+            for q in d.recs[d.recs.index(r) + 1:]:
+                if q.node.id == {'ST': 'SE', 'GS': 'GE', 'ISA': 'IEA'}[r.node.id] and q.vals[1] == old:
+                    q.vals[1] = r.vals[k]
+                    break
+        last[r.node.id] = r.vals[k]
     for r in d.recs:
         if r.node.id in ('SE', 'GE', 'IEA') and rng.random() < 0.35:
             k = rng.choice(['count+1', 'count0', 'id'])
